@@ -5,7 +5,7 @@ Property theorems only.  Model: `Model/Topics.lean` (tries of maps +
 `nextTopicLevel`, as repaired by the three `fix:` commits).  Specification:
 `Spec/Match.lean` (§4.7) and `Spec/TopicStore.lean`.
 -/
-import Mqtt.Proofs.Topics
+import Mqtt.Proofs.TopicsAbs
 
 namespace Mqtt.Properties.C06
 open Mqtt.Model.Topics Mqtt.Proofs.Topics
@@ -18,5 +18,42 @@ theorem C06_resubscribe_replaces (subs : List (Nat × Nat)) (sub qos : Nat)
     ((subsInsert subs sub qos).map (·.1)).Nodup ∧
     ∀ s, s ≠ sub → (subsInsert subs sub qos).lookup s = subs.lookup s :=
   subsInsert_spec subs sub qos hu
+
+/-! ### 1. what `smatch` returns, for every trie and every name -/
+
+/-- For every trie whose Go maps have unique keys (`WF`) and every list of name
+levels, the walk of `smatch` succeeds and returns - up to the order of map
+iteration - exactly the entries `(path, subscriber, g)` of the trie (`abs`)
+whose path is matched by the name (`walk`), each with QoS `min q g`. -/
+theorem C06_smatch_char (n : SNode) (ns : List Level) (q : Nat) (hwf : WF n) :
+    ∃ r, n.smatchL ns true q = some r ∧
+      r.Perm ((abs n).filterMap (fun e => if walk e.1 ns then some (e.2.1, min q e.2.2) else none)) :=
+  smatch_char n ns q hwf
+
+/-- non-vacuity: a well-formed trie holding `a/+` (sub 1, QoS 2), `a/#` (sub 2, QoS 0),
+`b` (sub 3, QoS 1); the name `a/b` at QoS 1 reaches subscribers 1 and 2. -/
+example :
+    let a : Level := [97]; let b : Level := [98]
+    let t : SNode := .mk [] [(a, .mk [] [(SWC, .mk [(1, 2)] []), (MWC, .mk [(2, 0)] [])]), (b, .mk [(3, 1)] [])]
+    WF t ∧ t.smatchL [a, b] true 1 = some [(1, 1), (2, 0)] ∧
+      (abs t).filterMap (fun e => if walk e.1 [a, b] then some (e.2.1, min 1 e.2.2) else none) = [(1, 1), (2, 0)] := by
+  refine ⟨?_, by decide, by decide⟩
+  simp [WF_mk, SWC, MWC, cSWC, cMWC]
+
+/-! ### 2. the walk is the section 4.7 relation -/
+
+/-- The relation between stored paths and name levels that the trie walk
+computes is MQTT 3.1.1 section 4.7 matching on level lists, for all level
+lists (in particular for valid filters). -/
+theorem C06_walk_eq_spec (fs ns : List Level) : walk fs ns = Mqtt.Spec.Match.matchLevels fs ns :=
+  walk_eq_matchLevels fs ns
+
+/-- the form with the validity hypothesis of the design document -/
+theorem C06_walk_eq_spec_valid (fs ns : List Level) (_ : Mqtt.Spec.Match.validFilterLevels fs = true) :
+    walk fs ns = Mqtt.Spec.Match.matchLevels fs ns :=
+  walk_eq_matchLevels fs ns
+
+example : walk [[97], SWC, MWC] [[97], [], [98], [99]] = true ∧
+    Mqtt.Spec.Match.validFilterLevels [[97], SWC, MWC] = true := by decide
 
 end Mqtt.Properties.C06
